@@ -323,7 +323,15 @@ func execute(f *pipex.Factory, s *scen) *outcome {
 	return out
 }
 
-// position of an unfinished id at stamp w
+// position of an unfinished id at stamp w. The stamp of the WaitForDrain
+// return is taken after the call came back, so while blocks are moving the
+// position at the stamp can be later than the position PendingCount saw. Only
+// "in the hands of a stage worker" is judged in that situation (definite): a
+// block seen there at the stamp was not counted by any earlier PendingCount
+// either, unless it had not even been taken yet -- and then it was counted in a
+// channel. Every other position (inside ApplyFunc, in a channel, in the apply
+// stage) is judged only when nothing could move between the drain call and
+// its stamp: pipeline at rest at the call, holds in force until after the stamp.
 type where struct {
 	key      string
 	definite bool
@@ -364,11 +372,11 @@ func locate(evs []pipex.Event, id int, w uint64) where {
 		case pipex.PtApplyRecv:
 			return where{"C43:held-in-apply-worker", true}
 		case pipex.PtApplyFunc:
-			return where{"C43:held-in-apply-func", true}
+			return where{"C43:held-in-apply-func", false}
 		}
 	}
 	if inApply {
-		return where{"C43:held-in-apply-func", true}
+		return where{"C43:held-in-apply-func", false}
 	}
 	if last < 0 {
 		return where{"C43:unfinished-in-submit-channel", false}
@@ -575,7 +583,7 @@ func run(c *core.Ctx) {
 			}
 		}
 	}
-	reps := c.N(2, 120)
+	reps := c.N(2, 80)
 	idx := 0
 	for rep := 0; rep < reps; rep++ {
 		for si, sp := range specs {
